@@ -80,7 +80,7 @@ def meta_with_include(rng, include=None):
 # ---------------------------------------------------------------------------
 def polygon_vertices(rng, L, cx, cy, kind=None):
     kind = kind or rng.choice(['convex', 'star', 'star', 'random', 'bowtie', 'pentagram', 'repeat', 'collinear',
-                               'rectilinear', 'triangle', 'keyhole', 'hourglass', 'balanced'])
+                               'rectilinear', 'triangle', 'keyhole', 'hourglass', 'balanced', 'parallelogram', 'flat'])
     if kind == 'triangle':
         n = 3
         pts = [(rng.uniform(-1, 1), rng.uniform(-1, 1)) for _ in range(n)]
@@ -134,6 +134,22 @@ def polygon_vertices(rng, L, cx, cy, kind=None):
         pts = rng.choice([[(-a, -b), (a, b), (a, -b), (-a, b)], [(-a, -b), (a, -b), (-a, b), (a, b)]])
         L = float(2 ** round(math.log2(max(L, 1e-3))))
         cx, cy = (float(round(cx)), float(round(cy))) if abs(cx) < 1e9 and abs(cy) < 1e9 else (cx, cy)
+    elif kind == 'parallelogram':
+        # a sheared box on dyadic coordinates: opposite edges are bit-identical vectors, the corners are not right angles
+        e1 = (rng.choice([0.5, 0.75, 1.0]), rng.choice([-0.25, 0.0, 0.125, 0.25]))
+        e2 = (rng.choice([-0.5, -0.25, 0.25, 0.5]), rng.choice([0.5, 0.75, 1.0]))
+        p0 = (-0.5 * (e1[0] + e2[0]), -0.5 * (e1[1] + e2[1]))
+        pts = [p0, (p0[0] + e1[0], p0[1] + e1[1]), (p0[0] + e1[0] + e2[0], p0[1] + e1[1] + e2[1]), (p0[0] + e2[0], p0[1] + e2[1])]
+        L = float(2 ** round(math.log2(max(L, 1e-3))))
+        cx, cy = (round(cx * 8) / 8, round(cy * 8) / 8) if abs(cx) < 1e9 and abs(cy) < 1e9 else (cx, cy)
+    elif kind == 'flat':
+        # all vertices on one vertical or horizontal line (zero area): on a pixel edge, inside a pixel, or on pixel centres
+        ts = [rng.uniform(-1, 1) for _ in range(rng.randint(3, 6))]
+        vertical = rng.random() < 0.5
+        pts = [(0.0, t) if vertical else (t, 0.0) for t in ts]
+        if abs(cx) < 1e9 and abs(cy) < 1e9:
+            off = rng.choice([0.5, 0.5, -0.5, 0.7, 0.2, 0.0])
+            cx, cy = (float(round(cx)) + off, cy) if vertical else (cx, float(round(cy)) + off)
     elif kind == 'collinear':
         pts = [(-1, -1), (0, -1), (0.5, -1), (1, -1), (1, 0), (1, 1), (0, 1), (-1, 1), (-1, 0.25)]
         pts = pts[:rng.randint(5, len(pts))]
@@ -221,6 +237,8 @@ def pixel_region_spec(rng, cls=None, size=None, center=None, include=None, angle
         return S.reg(cls, meta=meta, center=c, inner_radius=typed_size(rng, f * L / 2, ints=False), outer_radius=typed_size(rng, L / 2, ints=False))
     if cls in ('EllipseAnnulusPixelRegion', 'RectangleAnnulusPixelRegion'):
         f1, f2 = rng.uniform(0.05, 0.95), rng.uniform(0.05, 0.95)
+        if rng.random() < 0.15:
+            f1 = f2 = rng.choice([0.25, 0.5, 0.75])          # a hole exactly similar to the outline (dyadic factor: the proportion is exact)
         return S.reg(cls, meta=meta, center=c, inner_width=f1 * w, outer_width=w, inner_height=f2 * h,
                      outer_height=h, angle=ang)
     if cls == 'PointPixelRegion':
